@@ -2,7 +2,9 @@
     Only statements here; proofs live in Proofs/Qr*.v. *)
 From Qv Require Import Common.Bytes Gen.GenQrdata Model.Mime Model.QrData Spec.SmtpDataSpec
   Proofs.QrNeedRecodeProofs Proofs.QrPlainSpecProofs Proofs.QrQpDecodeProofs Proofs.QrQpTopProofs Proofs.QrWrapLineProofs
-  Spec.DeliverSpec Proofs.QrPhaseProofs Proofs.QrContentProofs.
+  Spec.DeliverSpec Spec.MultipartSpec Proofs.QrPhaseProofs Proofs.QrEntityProofs Proofs.QrContentProofs Proofs.QrMultiContentProofs
+  Proofs.QrFieldsProofs.
+Require Import Lia.
 
 (** When no recoding is necessary, what is sent after the 354 is, byte for byte, the message with CR, LF
     and CRLF line ends normalised to CRLF (a final CRLF added if missing; the empty message stays
@@ -14,6 +16,17 @@ Theorem C07_plain_exact : forall (m helo : bytes) (ext8 : bool),
                 concat (rev (out st)) = plain_wire m.
 Proof. exact send_data_plain. Qed.
 Print Assumptions C07_plain_exact.
+
+(** the checker that judges the C outputs on the plain path accepts what the model writes there *)
+Theorem C07_checker_accepts_plain : forall (m helo : bytes) (ext8 : bool),
+  must_recode ext8 m = false ->
+  exists fl st, send_data m helo ext8 = Ok (fl, false, Done tt st) /\
+                spec_ok_C07_plain m (concat (rev (out st))) = true.
+Proof.
+  intros m helo ext8 H. destruct (send_data_plain m helo ext8 H) as (fl & st & E1 & E2).
+  exists fl, st. split; [exact E1|]. unfold spec_ok_C07_plain. apply bytes_eqb_eq. exact E2.
+Qed.
+Print Assumptions C07_checker_accepts_plain.
 
 (** recode_qp() on any window (body or MIME part) of any message made of octets: what it writes — with
     the CRLF the terminator adds when the last line is open — is decoded by the strict RFC 2045
@@ -47,8 +60,8 @@ Print Assumptions C07_qp_body.
       the body (CRLF-normalised, up to the final CRLF); otherwise it is the CRLF-normalised, dot-stuffed body;
     - [extra] is empty, except possibly one CRLF (an empty line) behind a message that consists of a header
       only.
-    Not covered: which of several Content-Transfer-Encoding fields is the recorded one (the last), and that no
-    field was overlooked; multipart messages. *)
+    (h, s, l) are what the header analysis [qh_view] of the code finds; [C07_header_fields] says what that is: the
+    field is the LAST line of the header that starts with the name, and none is overlooked. *)
 Theorem C07_recoded_content : forall (m helo : bytes) (ext8 : bool),
   line_clean helo /\ seven_bit helo /\ length helo <= 255 ->
   Forall (fun c => (c < 256)%N) m ->
@@ -56,6 +69,7 @@ Theorem C07_recoded_content : forall (m helo : bytes) (ext8 : bool),
   forall fl st, send_data m helo ext8 = Ok (fl, true, Done tt st) ->
   let br := f8 fl || fline fl in
   exists h s l X1 X2 B extra,
+    (exists ct, qh_view m 0 (length m) = Ok (h, ct, (s, l))) /\
     1 <= h <= length m /\
     (h = hpos 0 m \/ exists c0 r, m = c0 :: r /\ is_eol c0 = true /\ skipn h m = after_eol c0 r) /\
     (l <> 0 -> s + l <= length m /\ s <= h /\ (s = 0 \/ is_eol (nth (s - 1) m 0%N) = true) /\
@@ -71,6 +85,68 @@ Theorem C07_recoded_content : forall (m helo : bytes) (ext8 : bool),
     (if br then qp_roundtrip (skipn h m) B else B = stuff (split_lines (skipn h m))).
 Proof. exact send_data_content_nomulti. Qed.
 Print Assumptions C07_recoded_content.
+
+(** "... and every well-formed multipart message, whose parts are recoded individually."
+    Spec/MultipartSpec.v defines, on the octets of the message only:
+    - [delim_at bnd u q]: a delimiter line starts at q (line end, "--", the boundary; behind it the end of the
+      data, white space, or "--" and then the end or white space); [find_delim]: the first one;
+    - [wf_ent]: well-formed as far as the recoder follows the structure of RFC 2046.  A multipart entity: its body
+      has a first delimiter (the preamble and that line need no recoding), which is no close delimiter; every
+      delimiter line ends, behind optional padding, with a line end; the parts reach up to the next delimiter;
+      the last delimiter is the close delimiter; the epilogue needs no recoding.  A part that needs recoding
+      (8-bit octets without 8BITMIME, a line over 998 octets) is an entity of its own and has to be well-formed
+      itself — a nested multipart to any depth, or anything that is no multipart.  Parts that need no
+      recoding may be anything;
+    - [ent_sent]: what goes out for such an entity.  No multipart: as in [C07_recoded_content] (header unfolded,
+      Content-Transfer-Encoding field taken out and the two marker lines put in iff the body is recoded, body
+      quoted-printable that the strict receiver decodes to it, or dot-stuffed and CRLF-normalised).  Multipart:
+      the header unfolded without its Content-Transfer-Encoding field; preamble and first delimiter line
+      CRLF-normalised and dot-stuffed; then per part the part as it is (normalised, dot-stuffed) if it needs no
+      recoding and else [ent_sent] of it, followed by the delimiter line "--boundary CRLF" (padding dropped); the
+      close delimiter "--boundary-- CRLF"; the epilogue normalised and dot-stuffed.
+    The header analysis ([hview m b len h boundary s l]: end of the header, boundary if multipart, the
+    Content-Transfer-Encoding field) is the one of the code: [qh_view] (Proofs/QrEntityProofs.v) and
+    is_multipart() on the Content-Type field it records; [C07_header_fields] says what these are.
+    Theorem: a well-formed message that takes the recoding path and completes is written as [ent_sent] says,
+    up to one CRLF (an empty line) in front of the terminator. *)
+Theorem C07_multipart_content : forall (m helo : bytes) (ext8 : bool),
+  line_clean helo /\ seven_bit helo /\ length helo <= 255 ->
+  Forall (fun c => (c < 256)%N) m ->
+  wf_ent m ext8 (hview m) 0 (length m) ->
+  forall fl st, send_data m helo ext8 = Ok (fl, true, Done tt st) ->
+  exists W extra, concat (rev (out st)) = W ++ extra ++ TERMINATOR /\ (extra = [] \/ extra = CRLF) /\
+                  ent_sent m ext8 (RECODED_STR ++ helo ++ CRLF) (hview m) 0 (length m) W.
+Proof. exact send_data_multipart_content. Qed.
+Print Assumptions C07_multipart_content.
+
+(** What the header analysis of qp_header ([qh_view]: the scan with getfieldlen()) finds in a window (b, len) of the
+    message, on the octets.  [lst j]: j is the first octet of a line; [nam N j]: the line starting at j begins with
+    the name N in any case.
+    - h, the end of the header: the offset of the first empty line of the window (the window's length if there
+      is none), or, if the window begins with an empty line, the end of that line;
+    - a recorded Content-Type / Content-Transfer-Encoding field starts a line at or before h with that name, lies
+      in the window, and its length is what getfieldlen() returns (first line and continuation lines);
+    - nothing is overlooked and the last one counts: in a window that ends with a line end, every line start in
+      front of h with the name lies at or in front of the recorded field, and a field is recorded.  (Without the
+      final line end the last line of the window may be such a field without being recorded: it is no complete
+      field for getfieldlen().)
+    So with several Content-Transfer-Encoding fields only the last is taken out when the body is recoded; an
+    earlier one stays in front of the marker lines (see reports/C07.md, "duplicate fields"). *)
+Theorem C07_header_fields : forall (m : bytes) (b len h : nat) (ct ce : nat * nat),
+  b + len <= length m -> 1 <= len -> qh_view m b len = Ok (h, ct, ce) ->
+  let lst j := j = 0 \/ is_eol (nth (b + j - 1) m 0%N) = true in
+  let nam (N : bytes) j := j + length N <= len /\ map to_lower (sub m (b + j) (length N)) = N in
+  1 <= h <= len /\
+  (h = hpos 0 (sub m b len) \/
+   exists c0 r, sub m b len = c0 :: r /\ is_eol c0 = true /\ skipn h (sub m b len) = after_eol c0 r) /\
+  (snd ct <> 0 -> lst (fst ct) /\ map to_lower (sub m (b + fst ct) (length CT_NAME)) = CT_NAME /\ fst ct <= h /\
+                  fst ct + snd ct <= len /\ getfieldlen m (b + fst ct) (len - fst ct) = Ok (snd ct)) /\
+  (snd ce <> 0 -> lst (fst ce) /\ map to_lower (sub m (b + fst ce) (length CTE_NAME)) = CTE_NAME /\ fst ce <= h /\
+                  fst ce + snd ce <= len /\ getfieldlen m (b + fst ce) (len - fst ce) = Ok (snd ce)) /\
+  (ends_eol (sub m b len) = true -> forall j, j < h -> lst j ->
+     (nam CT_NAME j -> snd ct <> 0 /\ j <= fst ct) /\ (nam CTE_NAME j -> snd ce <> 0 /\ j <= fst ce)).
+Proof. exact header_fields_plain. Qed.
+Print Assumptions C07_header_fields.
 
 (** wrap_line() on any line of at least WL_LONG octets: what it writes is the dot-stuffed line followed by
     CRLF with "CRLF SP" inserted at some places — [unfolds_to], the relation with which the C07 checker
@@ -99,3 +175,27 @@ Example C07_recoded_nonvacuous :
   let m := [83; 58; 32; 120; 13; 10; 13; 10; 104; 228; 13; 10]%N in
   exists fl st, send_data m [104]%N false = Ok (fl, true, Done tt st) /\ f8 fl || fline fl = true.
 Proof. eexists. eexists. split; [vm_compute; reflexivity|reflexivity]. Qed.
+
+(** the well-formedness predicate is met by a real multipart message, which takes the recoding path and completes:
+    "Content-Type: multipart/mixed; boundary=x" CRLF CRLF "--x" CRLF "A: b" CRLF CRLF "h" 0xE4 CRLF "--x--" CRLF *)
+Definition C07_EX : bytes := [67;111;110;116;101;110;116;45;84;121;112;101;58;32;109;117;108;116;105;112;97;114;116;47;109;105;120;101;100;59;32;98;111;117;110;100;97;114;121;61;120;13;10;13;10;45;45;120;13;10;65;58;32;98;13;10;13;10;104;228;13;10;45;45;120;45;45;13;10]%N.
+Example C07_multipart_nonvacuous : wf_ent C07_EX false (hview C07_EX) 0 (length C07_EX) /\
+  exists fl st, send_data C07_EX [104]%N false = Ok (fl, true, Done tt st).
+Proof.
+  split.
+  - eapply (wf_multi C07_EX false (hview C07_EX) 0 (length C07_EX) 43 [120%N] 0 0 1).
+    + exists (0, 43), (MpYes 40 1). split; [vm_compute; reflexivity|]. split; [vm_compute; reflexivity|]. right. exists 40, 1. split; reflexivity.
+    + vm_compute. reflexivity.
+    + vm_compute. reflexivity.
+    + vm_compute. reflexivity.
+    + vm_compute. reflexivity.
+    + vm_compute. lia.
+    + eapply (wfp_last C07_EX false (hview C07_EX) [120%N] _ _ 11).
+      * vm_compute. reflexivity.
+      * vm_compute. reflexivity.
+      * vm_compute. reflexivity.
+      * vm_compute. reflexivity.
+      * intros _. eapply (wf_single C07_EX false (hview C07_EX) _ _ 6 0 0).
+        exists (0, 0), MpNo. split; [vm_compute; reflexivity|]. split; [vm_compute; reflexivity|]. left. auto.
+  - eexists. eexists. vm_compute. reflexivity.
+Qed.
